@@ -8,7 +8,7 @@ claim('C12',
       'engine are trusted, every model is replayed natively.',
       'symbolic execution of the real code with z3 (minisym), validity queries per path', 'DESIGN.md §4 C12')
 _todo = ('check not built yet in this round; see DESIGN.md §8 build order')
-for _p in ['C03', 'C04', 'C05', 'C06', 'C07', 'C11', 'C13', 'C14', 'C15', 'C16', 'C17', 'C20']:
+for _p in ['C03', 'C04', 'C05', 'C06', 'C07', 'C11', 'C14', 'C15', 'C16', 'C17', 'C20']:
     na(_p, _todo)
 na('C19', 'PYTHONHASHSEED / process effects live in CPython C code and start-up, not reachable by symbolic execution of '
           'chython; modelling set order as arbitrary would over-approximate and raise false alarms (DESIGN.md C19)')
@@ -75,3 +75,14 @@ claim('C02',
       'Bounded: seed corpus; skeleton-level injectivity not claimed; aromatic re-reads are normalised by kekule+thiele before '
       'comparing hydrogen counts (documented library behaviour).',
       'symbolic execution of the real writer and reader with z3 (minisym)', 'DESIGN.md §4 C02')
+claim('C13',
+      'One inductive step from a fully cached state: after every derived value was read, one or two public-API edits with '
+      'solver-enumerated arguments (including invalid atom numbers, which must be rejected and leave the molecule intact) are '
+      'applied and every derived value is compared with a molecule rebuilt from scratch through the public API; raising '
+      'transactions restore exactly the prior state and leave the object usable; copies, substructures, unions and split parts '
+      'are unaffected by later edits of their source and are themselves editable.',
+      'Bounded: 9 Kekule seeds <= 7 atoms (quick) / 16 (thorough), edit alphabet of 9 operations, histories of length <= 2; '
+      'arguments are dictionary keys, so the solver enumerates finite domains rather than generalising; the rebuilt molecule '
+      'uses the library itself for hydrogens and canonical strings (independent valence model: C04).',
+      'symbolic execution of the real mutators with solver-enumerated arguments (minisym), differential against a rebuilt '
+      'molecule', 'DESIGN.md §4 C13')
